@@ -16,8 +16,9 @@ RULES = {
     'R4': '_cs_matches_filter_ covers all filter types, behind the priority window; FILE/FUNCTION strcmp, FORMAT strstr, *_REGEX regexec on the matching call-site field',
     'R5': '_log_filter_store and _log_filter_apply_to_cs interpret every enum qb_log_filter_conf member and set/clear the bit of the target passed in',
     'W1': 'QB_LOG_TARGET_MAX <= number of bits of qb_log_callsite.targets',
+    'R6': 'removing a filter (or clearing a tag filter) leaves the known call sites as the remaining stored filters select them: the remove path clears and then re-applies every stored filter of that target / every stored tag filter (what first-seen call sites get), it does not clear by the arguments of the remove call; closing a target clears its filters with arguments qb_log_filter_ctl accepts',
 }
-FLOORS = {'R1': 6, 'R2': 4, 'R3': 9, 'R4': 10, 'R5': 7, 'W1': 1}
+FLOORS = {'R1': 6, 'R2': 4, 'R3': 9, 'R4': 10, 'R5': 7, 'W1': 1, 'R6': 3}
 
 
 def run(ctx):
@@ -26,6 +27,7 @@ def run(ctx):
     r3(ctx)
     r4(ctx)
     r5(ctx)
+    r6(ctx)
     w1(ctx)
 
 
@@ -47,9 +49,11 @@ def r1(ctx):
     f = prog.fn('qb_log_filter_ctl2')
     store = list(f.calls('_log_filter_store'))
     app = list(f.calls('_log_filter_apply'))
-    if len(store) != 1 or len(app) != 1:
+    if len(store) != 1 or not app:
         raise AnalysisBroken('qb_log_filter_ctl2: store=%d apply=%d' % (len(store), len(app)))
-    hdr, body = _loop_over(f, app[0], 'callsite_sections')
+    allapp = app
+    hdr, body = _loop_over(f, app[-1], 'callsite_sections')
+    app = [app[-1]]
     ctx.check('R1', 'apply-in-section-loop', hdr is not None, app[0], 'the new filter is applied inside a loop over callsite_sections',
               'the new filter is not applied in a loop over all call-site sections')
     if hdr is not None:
@@ -67,7 +71,7 @@ def r1(ctx):
             if n in seen:
                 continue
             seen.add(n)
-            if any(x is app[0] for x in f.blocks[n].events):
+            if any(any(x is a_ for a_ in allapp) for x in f.blocks[n].events):
                 continue
             for (t, _l) in f.blocks[n].succs:
                 if t == hdr:
@@ -363,3 +367,29 @@ def w1(ctx):
     tmax = prog.econst('QB_LOG_TARGET_MAX')
     ctx.check('W1', 'target-bits', tmax <= bits, 'include/qb/qblog.h', 'QB_LOG_TARGET_MAX (%d) <= %d bits of qb_log_callsite.targets' % (tmax, bits),
               'QB_LOG_TARGET_MAX (%d) exceeds the %d bits of the target mask' % (tmax, bits))
+
+
+def r6(ctx):
+    prog = ctx.prog
+    f = prog.fn('qb_log_filter_ctl2')
+    cp = f.params[1]['n']
+    REMOVE, TAGCLR = prog.econst('QB_LOG_FILTER_REMOVE'), prog.econst('QB_LOG_TAG_CLEAR')
+    apps = list(f.calls('_log_filter_apply'))
+    # replays: apply calls whose configuration argument is a stored filter's own (flt->conf), inside a loop over a filter list
+    replays = [ev for ev in apps if last_field(unwrap(ev.args[2])) == ('qb_log_filter', 'conf')]
+    for (what, val, lst) in (('filter-remove', REMOVE, 'filter_head'), ('tag-clear', TAGCLR, 'tags_head')):
+        # evaluate the function for this command: which apply calls run, with which configuration argument?
+        visits, _t = abstract_run(f, {cp: val}, tracked={cp})
+        ran = [ev for (ev, env) in visits if ev.kind == 'CALL' and ev.callee == '_log_filter_apply']
+        by_args = [ev for ev in ran if estr(unwrap(ev.args[2])) == cp]
+        replay = [ev for ev in ran if any(ev.d is r.d for r in replays)]
+        ctx.check('R6', '%s:recomputed-from-stored-filters' % what, bool(replay) and not by_args, (by_args or replay or apps)[0],
+                  'on %s the known call sites are cleared and every stored filter is applied again' % what,
+                  'on %s the known call sites are changed by the arguments of the call itself: a call site that another stored filter still selects loses its %s, '
+                  'a remove that matches no stored filter still deselects, and a removed regex filter clears nothing' % (what, 'target bit' if val == REMOVE else 'tag'))
+    tf = prog.fn('qb_log_target_free')
+    clr = [ev for ev in list(tf.calls('qb_log_filter_ctl')) + list(tf.calls('qb_log_filter_ctl2')) if cval(unwrap(ev.args[1])) == prog.econst('QB_LOG_FILTER_CLEAR_ALL')]
+    ok = bool(clr) and all(cval(unwrap(ev.args[3])) != 0 or unwrap(ev.args[3]).get('k') == 'str' for ev in clr)
+    ctx.check('R6', 'target_free-clears-filters', ok, clr[0] if clr else tf,
+              'closing a target clears its filters with a text qb_log_filter_ctl2 accepts',
+              'qb_log_target_free asks for CLEAR_ALL with a NULL text, which qb_log_filter_ctl2 refuses: the closed target\'s filters and call-site bits are inherited by the next target opened in the slot')
